@@ -31,8 +31,10 @@ CONSTANTS
   Suspenders,     \* names of suspender objects (SuspendBoolHigh-like: trip on a truthy value, release on a falsy one)
   SigOf,          \* [suspender -> name of the signal it watches]   (at most one suspender per signal)
   SusFuts,        \* [suspender -> sequence of future names]: the asyncio.Event of its n-th trip
-  AsyncDevs       \* devices whose stop()/pause()/resume() are coroutines that really suspend (ophyd-async style):
+  AsyncDevs,      \* devices whose stop()/pause()/resume() are coroutines that really suspend (ophyd-async style):
                   \* every such call is a further parking place of the run task (pc = "aops")
+  FlyStream,      \* [flyer -> name of the event stream its describe_collect() announces] (old-style, doubly nested)
+  FlyN            \* [flyer -> number of events one collect() yields]
 
 Devices == Dets \cup Motors \cup Mons \cup Flyers
 Stageables == Dets \cup Motors
@@ -91,7 +93,9 @@ ClosedRun == [open |-> FALSE, ord |-> 0, bundling |-> FALSE, bname |-> "", objs 
               unrep |-> {},                        \* stream names that are never replayed (monitor streams; RunBundler._unreplayed_stream_names)
               dord |-> <<>>,      \* the streams that have a descriptor, in the order of RunBundler._descriptors (a dict)
               mons |-> {}, monsub |-> {}, intr |-> FALSE,
-              dcache |-> {}]      \* devices whose describe()/configuration are cached by this run's bundler
+              dcache |-> {},      \* devices whose describe()/configuration are cached by this run's bundler
+              uncol |-> {},       \* flyers kicked off in this run and not collected since (RunBundler._uncollected)
+              ccache |-> {}]      \* flyers whose describe_collect()/configuration are cached by this run's bundler
 
 NoCmd == [kind |-> "", a |-> "", sids |-> {}]
 
@@ -132,6 +136,7 @@ InitS ==
     pendRet |-> <<>>,       \* suspender operations not yet reported complete
     pend |-> <<>>,          \* device operations <<device, op>> still to do when parked inside an awaiting device call
     cont |-> "",            \* what the parked sequence of device operations belongs to: "pausing" | "susp" | "resume" | "fin"
+    finq |-> <<>>,          \* clean-up items <<run key, "mons" | flyer>> still to do (clear_monitors / backstop_collect per open run)
     planRet |-> FALSE ]     \* the plan ran to completion (StopIteration out of the last generator)
 
 Init == S = InitS /\ obs = <<>>
@@ -281,7 +286,7 @@ CallTerminate(op) ==
 
 ----------------------------------------------------------------------------
 (* request steps: atomic, between two steps of the run task *)
-AtPark == S.pc \in {"start", "paused", "sleep0", "cmd", "tail", "aops"}
+AtPark == S.pc \in {"start", "paused", "sleep0", "cmd", "tail", "aops", "bpark"}
 TaskAlive == S.pc \notin {"none", "done"}
 
 ReqObsA(kind, a, b, c, body, outcome) == <<Ev("req", kind, a, b, c, 0, 0)>> \o body \o <<Ev("reqret", kind, outcome, "", "", 0, 0)>>
@@ -549,8 +554,11 @@ CancelHandler(s, same) ==
 \* completed (caches filled) or been cancelled with it -- both are possible schedules
 DeliverCancel(cached) ==
   /\ S.pc \in {"sleep0", "cmd"} /\ S.cancel
-  /\ LET inCache == S.pc = "cmd" /\ S.cmd.kind \in {"read_cache", "mon_cache"}
-         s0 == IF inCache /\ cached THEN [S EXCEPT !.runs[S.cur.run].dcache = @ \cup {S.cur.obj}] ELSE S
+  /\ LET inCache == S.pc = "cmd" /\ S.cmd.kind \in {"read_cache", "mon_cache", "collect_cache"}
+         s0 == IF inCache /\ cached
+               THEN (IF S.cmd.kind = "collect_cache" THEN [S EXCEPT !.runs[S.cur.run].ccache = @ \cup {S.cur.obj}]
+                     ELSE [S EXCEPT !.runs[S.cur.run].dcache = @ \cup {S.cur.obj}])
+               ELSE S
      IN /\ (~inCache => cached)
         /\ S' = CancelHandler([s0 EXCEPT !.newResp = Val(None)], FALSE)
   /\ obs' = <<>>
@@ -672,6 +680,21 @@ SuspRest(s1) ==
        \* the helper is pushed by the command itself; the command's own response (None) is
        \* pushed afterwards by the finally clause -- ABOVE the helper's initial response
        IN Done(Push(s2, helper, Val(None)), Val(None))
+
+\* RunBundler.collect for one old-style EventCollectable flyer (1014-1166), after _ensure_cached: the stream announced by
+\* describe_collect() is described the first time; the flyer's events leave as ONE event page (recorded row by row); the
+\* counters are shared with event-model's compose_event.  bad: the device's collect() raises (before its first event)
+CollectCore(r, f, bad) ==
+  LET sn == FlyStream[f]
+      have == sn \in r.descs /\ f \in r.dobjs[sn]
+      c0 == IF r.ctr[sn] # 0 THEN r.ctr[sn] ELSE 1
+      rA == [r EXCEPT !.uncol = @ \ {f}, !.ccache = @ \cup {f}, !.descs = @ \cup {sn}, !.dobjs[sn] = IF have THEN @ ELSE {f},
+                      !.dord = IF sn \in r.descs THEN @ ELSE Append(@, sn),
+                      !.ctr[sn] = c0, !.copy[sn] = IF r.ctr[sn] = 0 THEN 1 ELSE @]
+      oDesc == IF have THEN <<>> ELSE <<EvDoc("descriptor", sn, "", 0, r.ord)>>
+  IN IF bad THEN [r |-> rA, o |-> oDesc \o <<EvDev(f, "collect", "raise", 0)>>]
+     ELSE [r |-> [rA EXCEPT !.ctr[sn] = c0 + FlyN[f]],
+           o |-> oDesc \o <<EvDev(f, "collect", "", 0)>> \o [i \in 1..FlyN[f] |-> EvDoc("event", sn, "", c0 + i - 1, r.ord)]]
 
 Exec(d) ==
   /\ S.pc = "exec"
@@ -806,6 +829,31 @@ Exec(d) ==
                IF d = "raise" THEN S' = Done(s1, Exc("DevErr")) /\ obs' = hook \o <<EvDev(m.obj, c, "raise", 0)>>
                ELSE /\ S' = Done(NewStatus(s1, m.a, d), Val("status"))
                     /\ obs' = hook \o <<EvDev(m.obj, c, "", s1.nextSid)>> \o StatEv(s1, d)
+       [] c = "kickoff" ->
+            \* RunEngine._kickoff 2132-2170: needs an open run (checked before the device is touched); the flyer is marked
+            \* uncollected once its kickoff() has returned
+            /\ d \in {"ok", "raise", "fail", "later"} /\ m.obj \in Flyers
+            /\ IF ~open THEN d = "ok" /\ S' = Done(s0, IMS) /\ obs' = hook
+               ELSE IF d = "raise" THEN S' = Done(s0, Exc("DevErr")) /\ obs' = hook \o <<EvDev(m.obj, c, "raise", 0)>>
+               ELSE LET s1 == SetRun(s0, m.run, [r EXCEPT !.uncol = @ \cup {m.obj}]) IN
+                    /\ S' = Done(NewStatus(s1, m.a, d), Val("status"))
+                    /\ obs' = hook \o <<EvDev(m.obj, c, "", s1.nextSid)>> \o StatEv(s1, d)
+       [] c = "complete" ->
+            /\ d \in {"ok", "raise", "fail", "later"} /\ m.obj \in Flyers
+            /\ IF d = "raise" THEN S' = Done(s0, Exc("DevErr")) /\ obs' = hook \o <<EvDev(m.obj, c, "raise", 0)>>
+               ELSE /\ S' = Done(NewStatus(s0, m.a, d), Val("status"))
+                    /\ obs' = hook \o <<EvDev(m.obj, c, "", s0.nextSid)>> \o StatEv(s0, d)
+       [] c = "collect" ->
+            \* RunEngine._collect -> RunBundler.collect: the first collect in a run awaits asyncio.gather(describe_collect,
+            \* describe_configuration, read_configuration): a real suspension point; the flyer stops being `uncollected` only
+            \* after it (an interruption there leaves it to the backstop collection)
+            /\ d \in {"ok", "raise"} /\ m.obj \in Flyers
+            /\ IF ~open THEN d = "ok" /\ S' = Done(s0, IMS) /\ obs' = hook
+               ELSE IF m.obj \notin r.ccache THEN
+                    /\ d = "ok" /\ S' = Block(s0, "collect_cache", "", {}) /\ obs' = hook
+               ELSE LET cc == CollectCore(r, m.obj, d = "raise") IN
+                    /\ S' = Done(SetRun(s0, m.run, cc.r), IF d = "raise" THEN Exc("DevErr") ELSE Val("seq:" \o ToString(FlyN[m.obj])))
+                    /\ obs' = hook \o cc.o
        [] c \in {"stage", "unstage"} ->
             /\ d \in {"ok", "raise"}
             /\ IF m.obj \notin Stageables THEN d = "ok" /\ S' = Done(s0, Val("seq:0")) /\ obs' = hook
@@ -890,6 +938,14 @@ CmdDone ==
                  /\ obs' = <<EvState("running", "pausing")>>
        [] OTHER -> FALSE
 
+\* the gather inside the first collect of a flyer in this run has finished: the rest of RunBundler.collect runs
+CollectDone(d) ==
+  /\ S.pc = "cmd" /\ ~S.cancel /\ S.cmd.kind = "collect_cache" /\ d \in {"ok", "raise"}
+  /\ LET m == S.cur
+         cc == CollectCore(S.runs[m.run], m.obj, d = "raise")
+     IN /\ S' = Done(SetRun(S, m.run, cc.r), IF d = "raise" THEN Exc("DevErr") ELSE Val("seq:" \o ToString(FlyN[m.obj])))
+        /\ obs' = cc.o
+
 ----------------------------------------------------------------------------
 (* leaving the loop: 1739-1761 *)
 Exit ==
@@ -933,26 +989,70 @@ FinRest(s) ==
              ELSE IF s.taskExc # None THEN s.taskExc ELSE "ok"
   IN [s EXCEPT !.runs = [k \in RunKeys |-> ClosedRun], !.staged = {},
                !.st = IF canIdle THEN "idle" ELSE @,
-               !.taskRes = res, !.pc = "done", !.blocking = TRUE, !.pend = <<>>, !.cont = "",
+               !.taskRes = res, !.pc = "done", !.blocking = TRUE, !.pend = <<>>, !.cont = "", !.finq = <<>>,
                !.gens = [i \in 1..Len(s.gens) |-> [s.gens[i] EXCEPT !.done = TRUE]]]
-FinRestObs(s, cr) ==
-  ClearMonsAll(OpenKeysOf(s.runs), s.runs) \o DevOps(s.staged, "unstage")
+FinRestObs2(s, cr) ==
+  DevOps(s.staged, "unstage")
   \o CloseAll(OpenKeysOf(s.runs), s.runs, s.exitStatus) \o CloseGens(s.gens, cr)
   \o (IF "idle" \in Table[s.st] THEN <<EvState(s.st, "idle")>> ELSE <<>>)
-Finally(cr) ==
-  /\ S.pc = "fin" /\ cr \in CloseReacts
+FinRestObs(s, cr) == ClearMonsAll(OpenKeysOf(s.runs), s.runs) \o FinRestObs2(s, cr)
+
+\* flyers kicked off and not collected: per open run (in _run_bundlers order) the monitors are cleared, then every uncollected
+\* flyer is collected (`backstop_collect`, 1773-1779; DevOrder order here, a python set in the code; its errors are swallowed).
+\* A flyer this run has not cached yet makes _ensure_cached await a gather: a further parking place INSIDE the finally block
+\* (pc = "bpark").
+RECURSIVE BackItems(_, _)
+BackItems(ks, rs) ==
+  IF ks = {} THEN <<>>
+  ELSE LET k == CHOOSE x \in ks : \A y \in ks : rs[x].ord <= rs[y].ord
+           fl == OpsL(rs[k].uncol, "collect")
+       IN <<<<k, "mons">>>> \o [i \in 1..Len(fl) |-> <<k, fl[i][1]>>] \o BackItems(ks \ {k}, rs)
+NeedBackstop(s) == \E k \in OpenKeysOf(s.runs) : s.runs[k].uncol # {}
+RECURSIVE RunBack(_, _, _)
+RunBack(s, q, bad) ==
+  IF q = <<>> THEN [s |-> s, o |-> <<>>, rest |-> <<>>, parked |-> FALSE]
+  ELSE LET k == Head(q)[1]
+           it == Head(q)[2]
+           r == s.runs[k]
+       IN IF it = "mons" THEN LET n == RunBack(s, Tail(q), bad) IN [n EXCEPT !.o = DevOps(r.mons, "clear_sub") \o @]
+          ELSE IF it \notin r.ccache
+               THEN [s |-> [s EXCEPT !.runs[k].ccache = @ \cup {it}], o |-> <<>>, rest |-> q, parked |-> TRUE]
+          ELSE LET cc == CollectCore(r, it, it \in bad)
+                   n == RunBack([s EXCEPT !.runs[k] = cc.r], Tail(q), bad)
+               IN [n EXCEPT !.o = cc.o \o @]
+\* the finally block after the motors have been stopped (pre: what the step has emitted so far)
+FinTail(s, pre, bad, cr) ==
+  IF ~NeedBackstop(s) THEN S' = FinRest(s) /\ obs' = pre \o FinRestObs(s, cr)
+  ELSE LET n == RunBack(s, BackItems(OpenKeysOf(s.runs), s.runs), bad) IN
+       IF n.parked THEN /\ S' = [n.s EXCEPT !.pc = "bpark", !.finq = n.rest, !.pend = <<>>, !.cont = ""]
+                        /\ obs' = pre \o n.o
+       ELSE S' = FinRest(n.s) /\ obs' = pre \o n.o \o FinRestObs2(n.s, cr)
+Finally(cr, bad) ==
+  /\ S.pc = "fin" /\ cr \in CloseReacts /\ bad \subseteq Flyers
   /\ LET L == OpsL(S.moved \cap Motors, "stop") IN
      IF OpsParks(L) THEN
         \* `await self._stop_movable_objects()` really suspends inside the finally block
         /\ S' = [S EXCEPT !.pc = "aops", !.cont = "fin", !.pend = OpsLeft(L)]
         /\ obs' = EvOps(OpsDoneNow(L))
-     ELSE /\ S' = FinRest(S) /\ obs' = EvOps(L) \o FinRestObs(S, cr)
+     ELSE FinTail(S, EvOps(L), bad, cr)
+\* the gather inside a backstop collect has finished: the clean-up goes on
+Backstop(cr, bad) ==
+  /\ S.pc = "bpark" /\ ~S.cancel /\ cr \in CloseReacts /\ bad \subseteq Flyers
+  /\ LET n == RunBack(S, S.finq, bad) IN
+     IF n.parked THEN S' = [n.s EXCEPT !.finq = n.rest] /\ obs' = n.o
+     ELSE S' = FinRest(n.s) /\ obs' = n.o \o FinRestObs2(n.s, cr)
+\* a cancellation delivered there: backstop_collect only swallows Exception -- the CancelledError escapes from the finally block
+\* (as from an awaiting stop(), AOpsCancel): runs stay open, devices staged, the state is not reset
+BackCancel ==
+  /\ S.pc = "bpark" /\ S.cancel
+  /\ S' = [S EXCEPT !.cancel = FALSE, !.finq = <<>>, !.taskRes = "cancelled", !.pc = "done", !.blocking = TRUE]
+  /\ obs' = <<>>
 
 ----------------------------------------------------------------------------
 (* parked inside an awaiting device call (pc = "aops") *)
 \* the awaited call returns: the pending operations go on, up to the next awaiting one or to the end of the sequence
-AOpsStep(cr) ==
-  /\ S.pc = "aops" /\ ~S.cancel /\ cr \in CloseReacts
+AOpsStep(cr, bad) ==
+  /\ S.pc = "aops" /\ ~S.cancel /\ cr \in CloseReacts /\ bad \subseteq Flyers
   /\ LET L == S.pend IN
      IF OpsParks(L) THEN /\ S' = [S EXCEPT !.pend = OpsLeft(L)] /\ obs' = EvOps(OpsDoneNow(L))
      ELSE CASE S.cont = "pausing" ->
@@ -963,7 +1063,7 @@ AOpsStep(cr) ==
                  ELSE /\ S' = ExitWith([S EXCEPT !.pend = <<>>, !.cont = ""], "TransitionError") /\ obs' = EvOps(L)
             [] S.cont = "susp" -> /\ S' = SuspRest([S EXCEPT !.pend = <<>>, !.cont = ""]) /\ obs' = EvOps(L)
             [] S.cont = "resume" -> /\ S' = Done([S EXCEPT !.pend = <<>>, !.cont = ""], Val(None)) /\ obs' = EvOps(L)
-            [] S.cont = "fin" -> /\ S' = FinRest(S) /\ obs' = EvOps(L) \o FinRestObs(S, cr)
+            [] S.cont = "fin" -> FinTail(S, EvOps(L), bad, cr)
 \* a cancellation is delivered inside the awaited device call
 AOpsCancel ==
   /\ S.pc = "aops" /\ S.cancel
